@@ -41,7 +41,7 @@ def seed_corpus(dirpath):
     return n
 
 
-def run_campaigns(seed, seconds):
+def run_campaigns(seed, seconds, plans=None, death_hook=True):
     stats = Stats()
     try:
         import atheris  # noqa: F401
@@ -55,7 +55,7 @@ def run_campaigns(seed, seconds):
     with open(dict_path, "w", encoding="utf-8") as f:
         for t in DICT:
             f.write('"%s"\n' % t.replace("\\", "\\\\").replace('"', '\\"'))
-    plans = [("query-text", "empty"), ("query-text", "tests"), ("query-struct", "empty"), ("pointer-text", "empty")]
+    plans = plans or [("query-text", "empty"), ("query-text", "tests"), ("query-struct", "empty"), ("pointer-text", "empty")]
     per = max(10, int(seconds / 2))
     procs = []
     for mode, corpus in plans:
@@ -88,7 +88,7 @@ def run_campaigns(seed, seconds):
                 blob = json.loads(line)
                 stats.fail(blob["signature"], blob["case"], "[atheris %s/%s] %s" % (mode, corpus, blob["detail"]))
         stats.notes.append({"atheris": "%s/%s" % (mode, corpus), "execs": execs, "exit": p.returncode})
-        if p.returncode not in (0, None):
+        if death_hook and p.returncode not in (0, None):
             # stopped by the hang watchdog (or crashed): let C06 confirm the last guarded call in isolation
             from ..checks import c06
             st2 = c06.on_worker_death(p.pid, {"name": "atheris:%s/%s" % (mode, corpus)}, p.returncode)
